@@ -88,6 +88,11 @@ def bounds(rng, n, x0, patterns=None, force=None, radius=1.0):
         elif p == "nearfixed":
             lb[i] = c
             ub[i] = float(np.nextafter(c, INF)) if rng.random() < 0.5 else c
+        elif p == "huge":
+            # finite bounds at the far end of the floating-point range (the
+            # width ub - lb overflows for the largest ones)
+            lb[i] = -min(10.0 ** rng.uniform(150, 308.2), 1.7e308)
+            ub[i] = min(10.0 ** rng.uniform(150, 308.2), 1.7e308)
     return lb, ub, pats
 
 
